@@ -11,7 +11,6 @@ import (
 	"errors"
 	"fmt"
 	"math"
-	"os"
 	"slices"
 	"strconv"
 	"strings"
@@ -431,7 +430,7 @@ Level:
 		switch trimmed {
 		case "help":
 			osenv.Logf("TODO: print --info/--debug help and exit")
-			os.Exit(0)
+			return &ExitError{Code: 0}
 		case "none":
 			lev = 0
 		case "all":
@@ -1300,6 +1299,19 @@ func (o *Options) tridgeTable() []poptOption {
 
 var errNotYetImplemented = errors.New("option not yet implemented in gokrazy/rsync")
 
+// ExitError is returned by ParseArguments after it printed output the
+// arguments asked for (--help, --version, --info=help): the program is done
+// and should exit with the given code. It is returned instead of calling
+// os.Exit because arguments can come from a network peer (daemon argument
+// lines, SSH sessions), which must not be able to end the serving process.
+type ExitError struct {
+	Code int
+}
+
+func (e *ExitError) Error() string {
+	return fmt.Sprintf("exit status %d", e.Code)
+}
+
 func NewContext(opts *Options) *Context {
 	table := opts.table()
 	table = slices.Concat(opts.GokrazyClient.table(), table)
@@ -1366,7 +1378,7 @@ func (pc *Context) ParseArguments(osenv *rsyncos.Env, args []string) error {
 				switch opt {
 				case 'h':
 					fmt.Println(opts.DaemonHelp()) // tridge rsync prints help to stdout
-					os.Exit(0)                     // exit with code 0 for compatibility with tridge rsync
+					return &ExitError{Code: 0}     // exit with code 0 for compatibility with tridge rsync
 				case 'M':
 					return errNotYetImplemented
 
@@ -1502,8 +1514,8 @@ func (pc *Context) ParseArguments(osenv *rsyncos.Env, args []string) error {
 			return errNotYetImplemented
 
 		case OPT_HELP:
-			fmt.Println(opts.Help()) // tridge rsync prints help to stdout
-			os.Exit(0)               // exit with code 0 for compatibility with tridge rsync
+			fmt.Println(opts.Help())   // tridge rsync prints help to stdout
+			return &ExitError{Code: 0} // exit with code 0 for compatibility with tridge rsync
 
 		case 'A':
 			return fmt.Errorf("ACLs are not supported by gokrazy/rsync")
@@ -1526,18 +1538,18 @@ func (pc *Context) ParseArguments(osenv *rsyncos.Env, args []string) error {
 
 	if version_opt_cnt > 0 {
 		fmt.Println(version.Read())
-		os.Exit(0)
+		return &ExitError{Code: 0}
 	}
 
 	if opts.human_readable > 1 && len(args) == 1 /* && !am_server */ {
-		fmt.Println(opts.Help()) // tridge rsync prints help to stdout
-		os.Exit(0)               // exit with code 0 for compatibility with tridge rsync
+		fmt.Println(opts.Help())   // tridge rsync prints help to stdout
+		return &ExitError{Code: 0} // exit with code 0 for compatibility with tridge rsync
 	}
 
 	if err := opts.setOutputVerbosity(DEFAULT_PRIORITY); err != nil {
 		// TODO: plumb error
 		fmt.Println(err.Error())
-		os.Exit(1)
+		return &ExitError{Code: 1}
 	}
 
 	if opts.recurse != 0 {
